@@ -282,3 +282,47 @@ func VerifHarness_Ops() {
 	}
 	verifCheckRun(mode, an, inputs, ref, ref.text+"\n")
 }
+
+var verifAssignOps = []string{"+", "-", "*", "/", "%", "**", "<<", ">>", "|", "&", "^"}
+
+// VerifHarness_AssignOps: `let x = L; x op= R; println(x);` — the compound assignment forms of every operator,
+// same oracles as VerifHarness_Ops (the result of `x op= R` is that of `x op R`).
+func VerifHarness_AssignOps() {
+	mode := errors.VerifParam("mode", 1)
+	ty := errors.VerifNdIntRange("type", 0, 3)
+	op := verifAssignOps[errors.VerifNdIntRange("op", 0, len(verifAssignOps)-1)]
+	errors.VerifTag("op", op+"=")
+	errors.VerifTag("type", []string{"int", "float", "bool", "str"}[ty])
+	var inputs []verifInput
+	var ref verifRef
+	switch ty {
+	case 0:
+		a, b := errors.VerifNdInt64("A"), errors.VerifNdInt64("B")
+		inputs = []verifInput{{name: "L", kind: 'i', i: a}, {name: "R", kind: 'i', i: b}}
+		ref = verifRefInt(op, a, b)
+	case 1:
+		a, b := errors.VerifNdFloat64("X"), errors.VerifNdFloat64("Y")
+		inputs = []verifInput{{name: "L", kind: 'f', f: a}, {name: "R", kind: 'f', f: b}}
+		ref = verifRefFloat(op, a, b)
+	case 2:
+		a, b := errors.VerifNdBool("P"), errors.VerifNdBool("Q")
+		inputs = []verifInput{{name: "L", kind: 'b', b: a}, {name: "R", kind: 'b', b: b}}
+		ref = verifRefBool(op, a, b)
+	case 3:
+		a := verifStrs[errors.VerifNdIntRange("S", 0, len(verifStrs)-1)]
+		b := verifStrs[errors.VerifNdIntRange("T", 0, len(verifStrs)-1)]
+		inputs = []verifInput{{name: "L", kind: 's', s: a}, {name: "R", kind: 's', s: b}}
+		ref = verifRefStr(op, a, b)
+	}
+	code := "fn main() {\n  let x = L;\n  x " + op + "= R;\n  println(x);\n}\n"
+	an := verifAnalyze(code, nil, inputs, true)
+	if an.hasError {
+		errors.VerifReached("rejected")
+		return
+	}
+	errors.VerifReached("accepted")
+	if ref.skip {
+		ref.anyResult = true
+	}
+	verifCheckRun(mode, an, inputs, ref, ref.text+"\n")
+}
